@@ -189,33 +189,54 @@ impl FileSystem {
         self.resolve_abs_path(format!(".upload-{upload_id}.json"))
     }
 
-    pub(crate) async fn create_upload_id(&self, cred: Option<&Credentials>) -> Result<Uuid> {
+    /// The record of an upload holds the access key of its creator and the bucket and key it was created for.
+    pub(crate) async fn create_upload_id(&self, cred: Option<&Credentials>, bucket: &str, key: &str) -> Result<Uuid> {
         let upload_id = Uuid::new_v4();
         let upload_info_path = self.get_upload_info_path(&upload_id)?;
 
         let ak: Option<&str> = cred.map(|c| c.access_key.as_str());
 
-        let content = serde_json::to_vec(&ak)?;
+        let info = serde_json::json!({ "access_key": ak, "bucket": bucket, "key": key });
+        let content = serde_json::to_vec(&info)?;
         fs::write(&upload_info_path, &content).await?;
 
         Ok(upload_id)
     }
 
-    /// `NoSuchUpload` if the upload does not exist
-    pub(crate) fn check_upload_exists(&self, upload_id: &Uuid) -> S3Result<()> {
-        if self.get_upload_info_path(upload_id)?.exists().not() {
+    /// `NoSuchUpload` if the upload does not exist or was created for another bucket or key.
+    ///
+    /// Returns the access key the upload was created with.
+    pub(crate) async fn check_upload_exists(&self, upload_id: &Uuid, bucket: &str, key: &str) -> S3Result<Option<String>> {
+        let upload_info_path = self.get_upload_info_path(upload_id)?;
+        if upload_info_path.exists().not() {
             return Err(s3_error!(NoSuchUpload));
         }
-        Ok(())
+
+        let content = try_!(fs::read(&upload_info_path).await);
+        let info: serde_json::Value = try_!(serde_json::from_slice(&content));
+
+        // a record written by an older version holds the access key only: that upload is not bound
+        let serde_json::Value::Object(info) = info else {
+            return Ok(try_!(serde_json::from_value(info)));
+        };
+
+        let field = |name: &str| info.get(name).and_then(serde_json::Value::as_str);
+        if field("bucket") != Some(bucket) || field("key") != Some(key) {
+            return Err(s3_error!(NoSuchUpload));
+        }
+        Ok(field("access_key").map(ToOwned::to_owned))
     }
 
-    /// `NoSuchUpload` if the upload does not exist, `AccessDenied` if it was created with other credentials
-    pub(crate) async fn verify_upload_id(&self, cred: Option<&Credentials>, upload_id: &Uuid) -> S3Result<()> {
-        self.check_upload_exists(upload_id)?;
-
-        let upload_info_path = self.get_upload_info_path(upload_id)?;
-        let content = try_!(fs::read(&upload_info_path).await);
-        let ak: Option<String> = try_!(serde_json::from_slice(&content));
+    /// `NoSuchUpload` if the upload does not exist or was created for another bucket or key,
+    /// `AccessDenied` if it was created with other credentials
+    pub(crate) async fn verify_upload_id(
+        &self,
+        cred: Option<&Credentials>,
+        upload_id: &Uuid,
+        bucket: &str,
+        key: &str,
+    ) -> S3Result<()> {
+        let ak = self.check_upload_exists(upload_id, bucket, key).await?;
 
         if ak.as_deref() != cred.map(|c| c.access_key.as_str()) {
             return Err(s3_error!(AccessDenied));
